@@ -107,16 +107,59 @@ class FileOverlay:
         m2 = re.search(rb"(?m)^(use|pub use|mod|pub mod|pub\(crate\) mod|#\[|pub|fn|impl|struct|const|cfg_if)", self.data)
         if m2:
             off = min(off, m2.start()) if off else m2.start()
-        self.insert(off, "#[allow(unused_imports)] use vstd::prelude::*;\n#[allow(unused_imports)] use crate::verif_specs::*;\n",
+        self.insert(off, "#[allow(unused_imports)] use vstd::prelude::*;\n#[allow(unused_imports)] use crate::verif_specs::*;\n"
+                    "#[allow(unused_imports)] use vstd::std_specs::{convert::{FromSpec, IntoSpec}, ops::{AddSpec, SubSpec, MulSpec, NegSpec}, cmp::PartialEqSpec};\n",
                     note="use vstd::prelude::*")
 
-    def wrap_item(self, kind, path, attrs=(), note=None):
+    def wrap_item(self, kind, path, attrs=(), note=None, narrow=False):
         it = self.item(kind, path)
         self.use_vstd()
+        if narrow:
+            txt = self.src(it["start"], it["end"])
+            m = re.search(r"(?m)^\s*pub(?=\s+(const|struct|enum|fn))", txt)
+            if m:
+                off = it["start"] + len(txt[:m.end()].encode("utf-8"))
+                self.insert(off, "(crate)", note=f"D5 visibility pub -> pub(crate) on {kind} {path}")
         pre, post = self.impl_split(it, path)
         pre += "".join(a + "\n" for a in attrs)
         self.insert(it["start"], pre, note=note or f"verus!{{}} around {kind} {path}" + (f" with {list(attrs)}" if attrs else ""))
         self.insert(it["end"], post)
+        return it
+
+    def wrap_const_exec(self, path, ensures, unit, narrow=True):
+        """`[pub] const X: T = E;` => verus!{ `[pub(crate)] exec const X: T ensures <clauses> { E }` }.
+        Verus' plain `const` is dual-mode (its initialiser must be a spec expression); an initialiser that calls
+        an exec fn needs the `exec const` form.  The initialiser E is kept verbatim and is VERIFIED against
+        the clauses."""
+        it = self.item("const", path)
+        self.use_vstd()
+        pre, post = self.impl_split(it, path)
+        txt = self.src(it["start"], it["end"])
+        m = re.search(r"(?m)^(\s*)(pub(\([a-z]+\))?\s+)?const\b", txt)
+        if not m:
+            raise AnchorLost(f"const {path}: unexpected shape")
+        if narrow and m.group(2) and m.group(2).strip() == "pub":
+            off = it["start"] + len(txt[:m.start(2) + 3].encode("utf-8"))
+            self.insert(off, "(crate)", note=f"D5 visibility pub -> pub(crate) on const {path}")
+        kw = it["start"] + len(txt[:m.end() - len("const")].encode("utf-8"))
+        self.insert(it["start"], pre, note=f"verus!{{}} around const {path} as `exec const` with ensures")
+        self.insert(kw, "exec ")
+        es, ee = it["expr_span"]
+        eq = self.data.rfind(b"=", it["start"], es)
+        semi = self.data.find(b";", ee, it["end"] + 1)
+        if eq < 0 or semi < 0:
+            raise AnchorLost(f"const {path}: cannot find `=`/`;`")
+        name = path.split("::")[-1]
+        self.replace(eq, eq + 1, "\n    ensures\n")
+        for k, c in enumerate(ensures):
+            tag = f"{unit}.ensures.{k}"
+            self.insert(es, f"        {c},\n", tag=tag)
+            self.ov.obligations.append({"id": tag, "unit": unit, "kind": "ensures", "text": _norm_ws(c)})
+        self.insert(es, "{ ")
+        self.replace(semi, semi + 1, " }")
+        self.insert(it["end"], post)
+        self.ov.units.append({"unit": unit, "fn": path, "file": self.rel, "backend": "verus", "span": [it["start"], it["end"]],
+                              "vacuity": False})
         return it
 
     def impl_split(self, it, path, force=True):
@@ -250,13 +293,18 @@ class FnOverlay:
         return self.fo.src(self.it["body_start"], self.it["body_end"])
 
     def verus(self, unit, ret=None, requires=(), ensures=(), decreases=None, attrs=(), external_body=False,
-              extra_sig=None, no_unwind=False, returns=None, ensures_tags=None, narrow_vis=False, vacuity=True):
+              extra_sig=None, no_unwind=False, returns=None, ensures_tags=None, narrow_vis=None, vacuity=True, no_wrap=False):
         """Wrap the real fn in verus!{} and attach the contract.  `unit` = obligation-id prefix."""
         fo, it = self.fo, self.it
         self.unit = unit
         fo.use_vstd()
         has_recv = any("recv" in p for p in it["params"])
-        pre, post = fo.impl_split(it, self.path, force=not has_recv)
+        if no_wrap:
+            pre, post = "", ""   # the enclosing item (e.g. a trait impl) is already wrapped in verus!{}
+        else:
+            pre, post = fo.impl_split(it, self.path, force=not has_recv)
+        if narrow_vis is None:
+            narrow_vis = it.get("vis", "") == "pub"
         if narrow_vis:
             fo.narrow_vis(it, self.path)
         al = list(attrs)
@@ -356,6 +404,13 @@ class FnOverlay:
         self._proof(e, text, tag_kind)
         return self
 
+    def before_tail(self, text):
+        """proof text before the tail expression (or before the closing brace)"""
+        it = self.it
+        off = it["stmts"][-1][0] if (it["stmts"] and it["tail_expr"]) else it["body_end"] - 1
+        self._proof(off, text, "assert")
+        return self
+
     def at_body_start(self, text):
         self._proof(self.it["body_start"] + 1, text, "assert")
         return self
@@ -374,6 +429,46 @@ class FnOverlay:
         s, e = self.fo.find_unique(old, *self._span(), what=f"(fn {self.path})")
         self.fo.replace(s, e, new, note=f"{rule}: `{_norm_ws(old)[:120]}` => `{_norm_ws(new)[:120]}` in {self.path}")
         self.fo.ov.rewrites.append({"rule": rule, "fn": self.path, "old": _norm_ws(old), "new": _norm_ws(new)})
+        return self
+
+    def demut_self(self):
+        """D7: `fn f(mut self, ..) { B }` => `fn f(self, ..) { let mut slf = self; B[self := slf] }`.
+        Verus does not support `mut self`; the rewrite is an alpha-renaming of the receiver binding."""
+        fo, it = self.fo, self.it
+        recv = [p for p in it["params"] if "recv" in p]
+        if not recv or not recv[0]["recv"].replace(" ", "").startswith("mutself"):
+            raise AnchorLost(f"demut_self: {self.path} has no `mut self` receiver")
+        rs, re_ = recv[0]["span"]
+        fo.replace(rs, re_, "self", note=f"D7: `mut self` => `self` + `let mut slf = self;` (alpha-renaming) in {self.path}")
+        bs, be = it["body_start"], it["body_end"]
+        fo.insert(bs + 1, " let mut slf = self; ")
+        body = fo.data[bs:be]
+        # replace the identifier `self` outside comments / string literals
+        i = 0
+        n = len(body)
+        while i < n:
+            c = body[i:i + 2]
+            if c == b"//":
+                j = body.find(b"\n", i)
+                i = n if j < 0 else j
+                continue
+            if c == b"/*":
+                j = body.find(b"*/", i)
+                i = n if j < 0 else j + 2
+                continue
+            if body[i:i + 1] == b'"':
+                j = i + 1
+                while j < n and body[j:j + 1] != b'"':
+                    j += 2 if body[j:j + 1] == b"\\" else 1
+                i = j + 1
+                continue
+            m = re.match(rb"self\b", body[i:])
+            if m and (i == 0 or not (body[i - 1:i].isalnum() or body[i - 1:i] == b"_")):
+                fo.replace(bs + i, bs + i + 4, "slf")
+                i += 4
+                continue
+            i += 1
+        fo.ov.rewrites.append({"rule": "D7", "fn": self.path, "old": "mut self", "new": "self; let mut slf = self; body[self:=slf]"})
         return self
 
     def closure_contract(self, n, params_typed, ret, ensures=(), requires=()):
